@@ -1,4 +1,5 @@
 import Model.Verilog.Emit
+import Proofs.Props.C01
 import Mathlib.Tactic.Ring
 /-!
 # C05 — the Verilog that `output_to_verilog` emits means what the netlist means
@@ -248,6 +249,92 @@ theorem emit_assign_eq_spec (b : Block) (vn : Nat → String) (n : Net) (e : VEx
     simpa only [hw] using this
   · rename_i m a
     exact absurd rfl (hm m)
+
+/-! ### module level: the netlist's valuation solves the emitted assignment system -/
+open RunRefine in
+theorem sched_args_good (b : Block) : ∀ (ns : List Net) (done : List Nat), Sched b ns done →
+    ∀ n ∈ ns, ∀ a ∈ n.args, Src b a ∨ a ∈ done ∨ a ∈ ns.map Net.dest := by
+  intro ns
+  induction ns with
+  | nil => intro _ _ n hn; simp at hn
+  | cons m ms ih =>
+    intro done hs n hn a ha
+    obtain ⟨hargs, hrest⟩ := hs
+    rcases List.mem_cons.mp hn with rfl | hn'
+    · rcases hargs a ha with h | h
+      · exact Or.inr (Or.inl h)
+      · exact Or.inl h
+    · rcases ih (m.dest :: done) hrest n hn' a ha with h | h | h
+      · exact Or.inl h
+      · rcases List.mem_cons.mp h with rfl | h'
+        · exact Or.inr (Or.inr (by simp))
+        · exact Or.inr (Or.inl h')
+      · exact Or.inr (Or.inr (by simp [h]))
+
+/-- **Whole module, combinational part.**  Take any well-formed block (`C01.WF`: what sanity_check and
+    the iteration order guarantee), any in-range state and inputs, and the valuation the documented
+    cycle semantics gives every wire.  Read that valuation as a Verilog environment (each wire under its
+    emitted name and declared width, each memory under `mem_<id>`).  Then **every continuous assignment
+    the exporter emits is satisfied**: evaluating its right-hand side under IEEE 1364 width rules and
+    truncating to the target yields exactly the value of the target.  Since the assignment system of an
+    acyclic netlist has a unique solution (`C01.spec_consistent_exists_unique`), the emitted module's nets
+    carry the netlist's values in every cycle. -/
+theorem verilog_assigns_hold (b : Block) (order : List Net) (hwf : C01.WF b order) (htopo : isTopo order = true)
+    (st : State) (hst : ∀ r, PySim.isReg b r = true → st.regs r < 2 ^ b.width r)
+    (inp : Env) (hin : C01.InputsOk b inp) (vn : Nat → String)
+    (hw : ∀ i, E.width (vn i) = b.width i)
+    (hv : ∀ i, E.val (vn i) = (Pyrtl.step b order st inp).1 i)
+    (hmem : ∀ m a, E.memV (memName m) a = memRead b st m a)
+    (hsel : ∀ n ∈ order, ∀ idx, n.op = .select idx → ∀ a ∈ n.args, ∀ i ∈ idx, i < b.width a) :
+    ∀ n ∈ order, ∀ e, emitExpr vn b.width n = some e →
+      assignVal E (b.width n.dest) e = E.val (vn n.dest) := by
+  intro n hn e he
+  -- the Spec valuation, its consistency and the range of its values
+  let s0 : PySim.Sim := { value := fun i => match b.kind i with | .const v => v | _ => 0, regvalue := st.regs, mem := st.mems }
+  have hinv : C01.Inv b s0 st := ⟨fun _ => rfl, hst, rfl, fun c v hk => by simp [s0, hk]⟩
+  have hstep := (C01.pysim_step_eq_spec b order hwf s0 st hinv inp hin).1
+  have hcons := (evalSeq_consistent (Pyrtl.netFun b st) order (baseEnv b st inp) (isTopo_sound order htopo)).1 n hn
+  have hgood : ∀ a ∈ n.args, C01.Good b order a := by
+    intro a ha
+    rcases sched_args_good b order [] hwf.sched n hn a ha with h | h | h
+    · exact Or.inl h
+    · simp at h
+    · exact Or.inr h
+  have hrange : ∀ a ∈ n.args, InRange E (vn a) := by
+    intro a ha
+    unfold InRange
+    rw [hv a, hw a]
+    exact (hstep a (hgood a ha)).2
+  rw [hv n.dest]
+  show _ = evalSeq (Pyrtl.netFun b st) order (baseEnv b st inp) n.dest
+  rw [hcons]
+  by_cases hmr : ∃ m, n.op = .mread m
+  · -- asynchronous read port
+    obtain ⟨m, hop⟩ := hmr
+    unfold emitExpr at he
+    rw [hop] at he
+    obtain ⟨_, args, _⟩ := n
+    simp only at he hop hrange ⊢
+    match args, he with
+    | [a], he =>
+      simp only [Option.some.injEq] at he
+      subst he
+      rw [assign_mread E (memName m) (vn a) _ (hrange a (by simp)), hmem, hv a]
+      simp only [Pyrtl.netFun, hop, Pyrtl.step, evalNets, List.map_cons, List.map_nil, List.headD_cons]
+  · have hm' : ∀ m, n.op ≠ .mread m := fun m h => hmr ⟨m, h⟩
+    rw [emit_assign_eq_spec E b vn n e hw hrange (hsel n hn) hm' he]
+    have hv' : ∀ i, E.val (vn i) = evalSeq (Pyrtl.netFun b st) order (baseEnv b st inp) i := hv
+    generalize evalSeq (Pyrtl.netFun b st) order (baseEnv b st inp) = env at hv' ⊢
+    have hzip : ∀ l : List Nat, (l.map b.width).zip (l.map env) = l.map (fun i => (b.width i, E.val (vn i))) := by
+      intro l
+      induction l with
+      | nil => rfl
+      | cons x xs ih => simp only [List.map_cons, List.zip_cons_cons, ih, hv' x]
+    unfold Pyrtl.netFun
+    split
+    · rename_i m heq
+      exact absurd heq (hm' m)
+    · simp only [hzip]
 
 /-! ### statements -/
 
